@@ -646,4 +646,130 @@ theorem readCollectionSize (p : BitVec 8) (data : List UInt8) (h : data.length <
       rw [hi]
       simp [ValueSpec.beNat]
 
+/-! ### The WHOLE `decVint` (early returns with an error, `LeadingZeros32`, the accumulation loop, zig-zag) against `Marshal.decVint` -/
+
+theorem loop_same (d : List (BitVec 8)) (s n : BitVec 64) (fuel : Nat) (i ret : BitVec 64) :
+    Gen.Marshal.decVint_loop1 d s n fuel i ret = Gen.Marshal.decVint_decVintLoop_loop1 d s n fuel i ret := by
+  induction fuel generalizing i ret with
+  | zero => rfl
+  | succ k ih => simp only [Gen.Marshal.decVint_loop1, Gen.Marshal.decVint_decVintLoop_loop1, ih]
+
+theorem bitLen_le (k n : Nat) (h : n < 2^k) : Marshal.bitLen n ≤ k := by
+  induction k generalizing n with
+  | zero => have : n = 0 := by simpa using h
+            subst this; rw [Marshal.bitLen]; simp
+  | succ k ih =>
+    rw [Marshal.bitLen]
+    split
+    · omega
+    · have := ih (n / 2) (by rw [Nat.pow_succ] at h; omega)
+      omega
+
+theorem clz_bitLen32 (x : BitVec 32) : (BitVec.clz x).toNat = 32 - Marshal.bitLen x.toNat := by
+  by_cases hx : x = 0#32
+  · subst hx
+    have : BitVec.clz (0#32) = 32#32 := by decide
+    rw [this, Marshal.bitLen]; simp
+  · have hlt : (BitVec.clz x).toNat < 32 := by
+      have := (BitVec.clz_lt_iff_ne_zero (x := x)).mpr hx
+      have := BitVec.lt_def.mp this
+      simpa using this
+    have h1 := BitVec.two_pow_sub_clz_le_toNat_of_ne_zero (x := x) (by decide) hx
+    have h2 := BitVec.toNat_lt_two_pow_sub_clz (x := x)
+    have e : 32 - (BitVec.clz x).toNat = (32 - 1 - (BitVec.clz x).toNat) + 1 := by omega
+    rw [e] at h2
+    have := bitLen_of_bounds _ _ h1 h2
+    omega
+
+theorem small_iff : ∀ b : BitVec 8, ((b &&& 0x80#8) == 0x0#8) = decide (b.toNat < 128) := by decide
+
+theorem not_val : ∀ b : BitVec 8, ((~~~b).setWidth 32).toNat = 255 - b.toNat := by decide
+
+/-- `numBytes := bits.LeadingZeros32(uint32(^firstByte)) - 24` is the model's `leadOnes` -/
+theorem numBytes_val (b : UInt8) :
+    (((BitVec.clz ((~~~b.toBitVec).setWidth 32)).setWidth 64) - 0x18#64) = BitVec.ofNat 64 (Marshal.leadOnes b) := by
+  apply BitVec.eq_of_toNat_eq
+  have h1 := clz_bitLen32 ((~~~b.toBitVec).setWidth 32)
+  have h2 := not_val b.toBitVec
+  have hb := UInt8.toNat_lt b
+  have h3 := bitLen_le 8 (255 - b.toNat) (by omega)
+  unfold Marshal.leadOnes
+  rw [h2] at h1
+  simp only [UInt8.toNat_toBitVec] at h1
+  rw [BitVec.toNat_sub, BitVec.toNat_setWidth, h1]
+  simp
+  omega
+
+
+theorem sle_nat (a b : Nat) (ha : a < 2^63) (hb : b < 2^63) :
+    BitVec.sle (BitVec.ofNat 64 a) (BitVec.ofNat 64 b) = decide (a ≤ b) := by
+  simp only [BitVec.sle, BitVec.toInt_eq_toNat_cond, BitVec.toNat_ofNat]
+  have a' : a % 2^64 = a := Nat.mod_eq_of_lt (by omega)
+  have b' : b % 2^64 = b := Nat.mod_eq_of_lt (by omega)
+  rw [a', b']
+  have : 2 * a < 2^64 := by omega
+  have : 2 * b < 2^64 := by omega
+  simp [*]
+
+theorem slt_small_dec (a b : Nat) (ha : a < 2^63) (hb : b < 2^63) :
+    BitVec.slt (BitVec.ofNat 64 a) (BitVec.ofNat 64 b) = decide (a < b) := by
+  simp only [BitVec.slt, BitVec.toInt_eq_toNat_cond, BitVec.toNat_ofNat]
+  have a' : a % 2^64 = a := Nat.mod_eq_of_lt (by omega)
+  have b' : b % 2^64 = b := Nat.mod_eq_of_lt (by omega)
+  rw [a', b']
+  have : 2 * a < 2^64 := by omega
+  have : 2 * b < 2^64 := by omega
+  simp [*]
+
+theorem zz_toInt (x : BitVec 64) : (Gen.Marshal.decIntZigZag x).toInt = Marshal.decIntZigZag x.toNat := by
+  have := GenTie.C12.decIntZigZag x.toNat
+  rwa [BitVec.ofNat_toNat, BitVec.setWidth_eq] at this
+
+/-- the WHOLE `decVint(data, start)`: error / (value, next position) as the model's `decVint` on the suffix at `start` -/
+theorem decVint (data : List UInt8) (s : Nat) (hd : data.length < 2^60) (hs : s ≤ data.length) :
+    (match Gen.Marshal.decVint (data.map (·.toBitVec)) (BitVec.ofNat 64 s) with
+     | (v, nxt, err) => if err then none else some (v.toInt, data.drop nxt.toNat)) = Marshal.decVint (data.drop s) := by
+  unfold Gen.Marshal.decVint
+  rw [List.length_map, sle_nat _ _ (by omega) (by omega)]
+  by_cases h1 : data.length ≤ s
+  · have : data.drop s = [] := List.drop_eq_nil_of_le h1
+    simp [h1, this, Marshal.decVint]
+  · have hlt : s < data.length := by omega
+    have hdrop : data.drop s = data[s] :: data.drop (s + 1) := List.drop_eq_getElem_cons hlt
+    have hsn : (BitVec.ofNat 64 s).toNat = s := by simp only [BitVec.toNat_ofNat]; omega
+    have hget : (data.map (·.toBitVec)).getD (BitVec.ofNat 64 s).toNat 0#8 = (data[s]).toBitVec := by
+      rw [hsn, List.getD_eq_getElem?_getD, List.getElem?_map, List.getElem?_eq_getElem hlt]; rfl
+    simp only [h1, decide_false, Bool.false_eq_true, if_false, hget, small_iff, hdrop, Marshal.decVint, UInt8.toNat_toBitVec]
+    generalize data[s] = first
+    by_cases hsm : first.toNat < 128
+    · have h64 : first.toBitVec.setWidth 64 = BitVec.ofNat 64 first.toNat := by
+        apply BitVec.eq_of_toNat_eq; have := UInt8.toNat_lt first; simp
+      have hn : (BitVec.ofNat 64 s + 0x1#64).toNat = s + 1 := by simp; omega
+      simp [hsm, zz_toInt, hn]
+    · simp only [hsm, decide_false, Bool.false_eq_true, if_false, numBytes_val]
+      have hnb : Marshal.leadOnes first ≤ 8 := by unfold Marshal.leadOnes; omega
+      generalize Marshal.leadOnes first = nb at hnb
+      have hadd : BitVec.ofNat 64 s + BitVec.ofNat 64 nb + 0x1#64 = BitVec.ofNat 64 (s + nb + 1) := by
+        apply BitVec.eq_of_toNat_eq; simp
+      have hnbn : (BitVec.ofNat 64 nb).toNat = nb := by simp only [BitVec.toNat_ofNat]; omega
+      rw [hadd, slt_small_dec _ _ (by omega) (by omega), hnbn]
+      have hrl : (data.drop (s + 1)).length = data.length - (s + 1) := by simp
+      by_cases hshort : data.length < s + nb + 1
+      · have : (data.drop (s + 1)).length < nb := by omega
+        simp [hshort]; omega
+      · have hnot : ¬ (data.drop (s + 1)).length < nb := by omega
+        simp only [hshort, hnot, decide_false, Bool.false_eq_true, if_false]
+        rw [loop_same]
+        have hL := GenTie.C12.decVintLoop (data.map (·.toBitVec)) s nb (by simp; omega) (by simpa using hd)
+          (BitVec.setWidth 64 (first.toBitVec &&& 255#8 >>> nb))
+        unfold Gen.Marshal.decVintLoop at hL
+        simp only [] at hL
+        rw [hL, zz_toInt, List.drop_drop, ← List.map_drop, ← List.map_take, vfold_val]
+        have hr0 : (BitVec.setWidth 64 (first.toBitVec &&& 255#8 >>> nb)).toNat = first.toNat &&& 255 >>> nb := by
+          simp [BitVec.toNat_and]
+        have hn : (BitVec.ofNat 64 (s + nb + 1)).toNat = s + nb + 1 := by simp only [BitVec.toNat_ofNat]; omega
+        rw [hr0, hn]
+        congr 3
+        omega
+
 end GenTie.C12
